@@ -18,6 +18,7 @@ import (
 	"github.com/semihalev/sdns/internal/dnsutil"
 	"github.com/semihalev/sdns/internal/ecs"
 	"github.com/semihalev/sdns/internal/metric"
+	"github.com/semihalev/sdns/internal/verifhook"
 	"github.com/semihalev/sdns/internal/waitgroup"
 	"github.com/semihalev/sdns/middleware"
 	"github.com/semihalev/sdns/middleware/resolver/dnssec"
@@ -368,6 +369,9 @@ func (c *Cache) internalExchange(
 ) (*dns.Msg, subQueryLineage, error) {
 	if c.queryer == nil {
 		return nil, subQueryLineage{}, errQueryerNotWired
+	}
+	if err := verifhook.Fail("cache.internal-exchange"); err != nil {
+		return nil, subQueryLineage{}, err
 	}
 
 	// The sub-query accumulates its own delegation-cut deadline. Its answer
